@@ -544,3 +544,51 @@ def r_margin_passed(cx):
                   "half-cell margin of the root grid is found but not interpolated, and gridshift stomps it" % (m[2],),
                   cx.where(t["span"]))
     cx.count("R-MARGIN-PASSED", "margin_calls", n)
+
+
+@rule("R-SUBGRID-STRICT", ["C08"])
+def r_subgrid_strict(cx):
+    """`Ntv2Grid::find_grid(coord, margin)`: the walk down the parent/child tree decides by strict containment (sub-grids
+    of one parent do not overlap, so the first hit is the only candidate): a `contains` test inside the walk loop takes a
+    margin that does not depend on the caller's margin - otherwise a point inside sub-grid B but within the caller's
+    half-cell margin of its sibling A, listed first, is interpolated in A. The caller's margin is used after the walk,
+    for the outer rim of the base grids."""
+    name = "grid::ntv2::Ntv2Grid::find_grid"
+    if not cx.f.has_fn(name):
+        cx.ob("R-SUBGRID-STRICT", "anchor", False, "anchor-missing: %s" % name)
+        return
+    f = cx.f.fn(name)
+    inside = outside = 0
+    for bb, t in f.calls():
+        c = f.callee(t) or ""
+        if not c.endswith("::contains") or "BaseGrid" not in c + (t.get("callee_full") or ""):
+            continue
+        a = f.arg_terms(bb)
+        if len(a) < 3:
+            continue
+        dep = [False]
+        mir.walk(a[2], lambda y: (dep.__setitem__(0, True) if y[:2] == ("arg", 3) else None) or True)
+        if f.innermost_loop(bb) is not None and _walk_loop(f, f.innermost_loop(bb)):
+            inside += 1
+            cx.ob("R-SUBGRID-STRICT", "walk/contains%d" % (inside - 1), not dep[0],
+                  "the tree walk tests strict containment" if not dep[0] else
+                  "find_grid: the walk down the sub-grid tree tests containment with the caller's margin: a point in the "
+                  "margin of a sub-grid listed before the one that contains it is interpolated in the wrong sub-grid",
+                  cx.where(t["span"]))
+        elif dep[0]:
+            outside += 1
+    cx.ob("R-SUBGRID-STRICT", "rim", outside > 0,
+          "after the walk, the base grids are tried with the caller's margin" if outside else
+          "find_grid never tests containment with the caller's margin: the half-cell margin outside the file's coverage "
+          "is not served", cx.where(f.d["span"]))
+    cx.count("R-SUBGRID-STRICT", "walk_contains", inside)
+
+
+def _walk_loop(f, lp):
+    """the loop that walks down the tree: it pops from a work list that it also refills"""
+    tails = set()
+    for b in lp.body:
+        t = f.term(b)
+        if t["k"] == "call":
+            tails.add((f.callee(t) or "").rsplit("::", 1)[-1])
+    return "pop" in tails or "pop_front" in tails or "clone_from" in tails
